@@ -10,6 +10,40 @@ import traceback
 import warnings
 
 
+def run_resilient(mod, ck):
+    """run the contract's run(ck) one top-level statement (stage) at a time: a stage whose contract code cannot cope with the tree under
+    check (an attribute, function or file the contract binds to is gone; a helper raises) is recorded as UNDECIDED and the remaining
+    stages -- in particular the bounded native ones -- still run.  A crash of contract code is never a verdict about the code."""
+    import ast
+    import inspect
+    import textwrap
+
+    from nssvc.check import Ob
+
+    try:
+        src = textwrap.dedent(inspect.getsource(mod.run))
+        fdef = ast.parse(src).body[0]
+        first = mod.run.__code__.co_firstlineno
+        argname = fdef.args.args[0].arg
+    except Exception:
+        return mod.run(ck)
+    # one namespace (a copy of the module's globals plus the function's locals) so that lambdas / comprehensions in a stage see run's locals
+    env = dict(mod.__dict__)
+    env[argname] = ck
+    for st in fdef.body:
+        code = compile(ast.fix_missing_locations(ast.Module(body=[st], type_ignores=[])), mod.__file__, "exec")
+        try:
+            exec(code, env)
+        except Exception as ex:
+            tb = traceback.format_exc().strip().splitlines()
+            where = [l.strip() for l in tb if l.strip().startswith("File ")][-1:] or [""]
+            o = Ob("%s/contract.stage[line %d]" % (ck.prop, first + st.lineno - 1), "exec")
+            o.note = "contract code could not run on this tree (%s: %s) at %s; nothing is concluded from this stage" % (type(ex).__name__, str(ex)[:160], where[0][:140])
+            o.status = "undecided"
+            ck.obs.append(o)
+            ck.undecided.append(o)
+
+
 def main(argv):
     warnings.filterwarnings("ignore")
     os.environ.setdefault("NUSPACESIM_VERIF", "1")
@@ -40,7 +74,7 @@ def main(argv):
     try:
         mod = importlib.import_module("contracts.%s" % prop)
         ck = Check(prop, tier, seed, level=getattr(mod, "LEVEL", "proof"))
-        mod.run(ck)
+        run_resilient(mod, ck)
         return ck.finish(explanation=getattr(mod, "EXPLANATION", ""))
     except Exception as ex:
         traceback.print_exc()
